@@ -156,9 +156,7 @@ func (fv *FuncVC) needStrEq() {
 // ---------------------------------------------------------------------------
 
 func (fv *FuncVC) setVal(v ssa.Value, t Term) {
-	if t.T == nil {
-		t.T = v.Type()
-	}
+	t.T = v.Type()
 	fv.vals[v] = t
 }
 
@@ -175,7 +173,6 @@ func (fv *FuncVC) define(v ssa.Value, t Term) {
 	}
 	c := fv.declare(name, t.Sort)
 	fv.assume(eq(c, t))
-	c.T = t.T
 	fv.setVal(v, c)
 }
 
@@ -586,13 +583,13 @@ func (fv *FuncVC) indexAddr(x *ssa.IndexAddr) {
 		}
 		fv.oblige("index", fv.srcName(x.X), and(le(intLit(0), i), lt(i, slLen(s))), x.Pos(), "slice index in range")
 		esz := fv.TE.Sizeof(u.Elem())
-		fv.define(x, add(slPtr(s), mul(intLit(esz), i)))
+		fv.define(x, fv.ix(slPtr(s), i, esz))
 	case *types.Pointer:
 		at := u.Elem().Underlying().(*types.Array)
 		base := fv.val(x.X)
 		fv.oblige("index", fv.srcName(x.X), and(le(intLit(0), i), lt(i, intLit(at.Len()))), x.Pos(), "array index in range")
 		esz := fv.TE.Sizeof(at.Elem())
-		fv.define(x, add(base, mul(intLit(esz), i)))
+		fv.define(x, fv.ix(base, i, esz))
 	default:
 		fv.abort("IndexAddr on %s", x.X.Type())
 	}
